@@ -18,7 +18,7 @@ def normalize(src, dst):
             okmut = 0
             for o in h["ops"]:
                 r = o["r"]
-                if o["op"] in ("add", "remove", "enable") and r["ok"]:
+                if o["op"] in ("add", "remove", "enable", "clear") and r["ok"]:
                     okmut += 1
                 ops.append({"op": o["op"], "n": o.get("n", ""), "s": o.get("s", 0), "b": o.get("b", False),
                             "th": o["th"], "inv": o["inv"], "res": o["res"],
@@ -26,22 +26,31 @@ def normalize(src, dst):
                                   "count": r.get("count", 0), "names": r.get("names", [])}})
             if h["dv"] != okmut:      # "the version number grows with every successful change"
                 badv.append((n, h))
-            out.write(json.dumps({"init": h["init"], "ops": ops, "final": h["final"]}) + "\n")
+            out.write(json.dumps({"init": h["init"], "ops": ops, "final": h["final"], "fget": h["fget"], "fcount": h["fcount"]}) + "\n")
             raw.append(h)
             n += 1
     return n, hung, badv, raw
 
 
-def concurrent(ctx, nhist, batch=1000):
+def concurrent(ctx, nhist, batch=1000, screened=0):
     total = 0
     overlapping = 0
-    for b in range(0, nhist, batch):
-        k = min(batch, nhist - b)
+    plan = [(b, min(batch, nhist - b), False) for b in range(0, nhist, batch)]
+    # screened histories: run, and keep for validation only those whose quiescent read-back is incoherent in itself
+    SB = 50000
+    plan += [(nhist + b, min(SB, screened - b), True) for b in range(0, screened, SB)]
+    nscreened = 0
+    for b, k, scr in plan:
         rec = ctx.path("kbhist_%d.ndjson" % b)
-        p = c.vh(["kbstress", "--n", k, "--seed", ctx.seed * 1000 + b, "--out", rec], timeout=1800)
+        p = c.vh(["kbstress", "--n", k, "--seed", ctx.seed * 1000 + b, "--out", rec] + (["--screen", 1] if scr else []), timeout=3600)
         if p.returncode != 0:
             raise c.ToolError("kbstress failed: " + p.stderr[-500:])
-        overlapping += json.loads(p.stdout.strip().splitlines()[-1])["overlapping"]
+        info = json.loads(p.stdout.strip().splitlines()[-1])
+        overlapping += info["overlapping"]
+        if scr:
+            nscreened += k
+            if info["written"] == 0:
+                continue
         norm = ctx.path("kbhist_%d.norm" % b)
         n, hung, badv, raw = normalize(rec, norm)
         for i in hung:
@@ -66,11 +75,13 @@ def concurrent(ctx, nhist, batch=1000):
             ctx.cov["samples"].append({"concurrent_history": raw[0]})
     ctx.cov["traces_validated_against_impl"] += total
     ctx.cov["concurrent_histories"] = total
+    ctx.cov["concurrent_histories_screened"] = nscreened
+    ctx.cov["evaluations"] += nscreened * 12
     ctx.cov["concurrent_histories_with_overlap"] = overlapping
     ctx.cov["distinct_nontrivial"] += overlapping
     ctx.cov["evaluations"] += total * 12
-    c.log("  concurrent: %d histories (3 threads x 4 ops), %d with overlapping operations, all linearizable: %s" % (
-        total, overlapping, not any(f["model"] == "kb-concurrent" for f in ctx.failures)))
+    c.log("  concurrent: %d histories (3 threads x 4 ops) checked for linearizability by TLC, %d more screened at quiescence; %d with overlapping "
+          "operations; all linearizable: %s" % (total, nscreened, overlapping, not any(f["model"] == "kb-concurrent" for f in ctx.failures)))
 
 
 def run(ctx):
@@ -85,14 +96,21 @@ def run(ctx):
         r = c.replay(ctx, "kb", edges, walks=walks, walklen=wl, allhist=ah)
         c.log("  %s: %d edges / %d states; %d behaviours, %d steps, %d failures" % (
             cfg, g["edges"], g["states"], r["behaviours"], r["steps"], r["failures_n"]))
-    concurrent(ctx, 2000 if q else 50000)
+        # only the ORDER of saliences matters: again with the lowest mapped to i32::MIN and the highest to i32::MAX
+        c.set_header_cfg(edges, {"extreme": True})
+        r = c.replay(ctx, "kb", edges, walks=walks, walklen=wl, allhist=ah)
+        c.log("    with saliences i32::MIN / 0 / i32::MAX: %d behaviours, %d failures" % (r["behaviours"], r["failures_n"]))
+    concurrent(ctx, 2000 if q else 50000, screened=60000 if q else 3000000)
     ctx.cov["exhaustive"] = True
     ctx.cov["rule"] = ("sequential: the complete reachable state graph of KnowledgeBase.tla (3 or 4 names x 3 saliences x enable "
                        "flags) is dumped by TLC and every (state,op) transition, all op sequences to the all-histories depth and "
                        "seeded walks to 8 ops are replayed on the real KnowledgeBase (list order, get_rule per name, names, count, "
-                       "by-salience, snapshot, statistics, version delta compared after every op); concurrent: 3 threads x 4 ops "
-                       "histories recorded from the real object, each checked by TLC for a linearization (distinct_nontrivial adds "
-                       "the histories in which operations of different threads overlapped in real time)")
+                       "by-salience, snapshot, statistics, version delta compared after every op), and again with the saliences relabelled "
+                       "i32::MIN / 0 / i32::MAX; concurrent: 3 threads x 4 ops histories (random mix incl. clear; a clear-heavy family; a "
+                       "single-name contention family) recorded from the real object, each checked by TLC for a linearization that also "
+                       "explains the quiescent read-back (listing, lookup of every name, count); a much larger number of histories is "
+                       "screened at quiescence only and any incoherent one is handed to TLC (distinct_nontrivial adds the histories in "
+                       "which operations of different threads overlapped in real time)")
     ctx.assumptions += ["concurrent half: only schedules that occurred in the stress runs are validated",
                         "set_rule_enabled on an existing rule counts as a successful change even if the flag is unchanged"]
     return c.finish(ctx, "model_checking")
